@@ -1027,8 +1027,58 @@ def tget(x, key):
     return STensor(shape, base=x.base, imap=full, meta=meta, inv=inv)
 
 
+class MaskT:
+    """boolean mask over a term-mode tensor (result of comparing tensor DATA with a scalar): elementwise z3 Bool"""
+    def __init__(s, shape, fn):
+        s.shape = tuple(shape)
+        s.fn = fn
+
+
+def t_compare(op, a, b):
+    """tensor <op> scalar on term-mode data -> MaskT (kernel-mode data cannot be compared: the result would not be linear)"""
+    import operator as _o
+    f = {'==': _o.eq, '!=': _o.ne, '<': _o.lt, '<=': _o.le, '>': _o.gt, '>=': _o.ge}[op]
+    if not isinstance(a, STensor):
+        a, b = b, a
+        f = {'==': _o.eq, '!=': _o.ne, '<': _o.gt, '<=': _o.ge, '>': _o.lt, '>=': _o.le}[op]
+    if isinstance(b, STensor):
+        raise Unsupported('comparison of two tensors')
+    xs = a.snap()
+    rhs = TV.of(Fr(b) if isinstance(b, float) else b)
+
+    def fn(idx):
+        v = xs(list(idx))
+        if not isinstance(v, TV):
+            raise Unsupported('comparison of tensor data (kernel mode)')
+        return f(v.e, rhs.e)
+    return MaskT(a.shape, fn)
+
+
+def tset_mask(obj, mask, val):
+    """obj[mask] = scalar, through views; term mode only"""
+    oinv = obj.inverse()
+    if oinv is None:
+        raise Unsupported('masked assignment through an unstructured view')
+    if isinstance(val, STensor):
+        raise Unsupported('masked assignment of a tensor')
+    v = TV.of(Fr(val) if isinstance(val, float) else val)
+    old = obj.base.elem
+    ctx().effects.append(('write', obj.base, 'masked-setitem'))
+
+    def elem(bidx):
+        member, idx = oinv(bidx)
+        o = old(bidx)
+        if not isinstance(o, TV):
+            raise Unsupported('masked assignment on kernel-mode data')
+        cnd = z3.And(B(member), mask.fn(idx))
+        return TV(z3.If(cnd, v.e, o.e), z3.If(cnd, 0, o.d) if o.d is not None else None)
+    obj.base.elem = elem
+
+
 def tset(obj, key, val):
     """obj[key] = val (basic slices / ints), obj must be a base tensor"""
+    if isinstance(key, MaskT):
+        return tset_mask(obj, key, val)
     c = ctx()
     oinv = obj.inverse()
     if oinv is None:
